@@ -915,4 +915,794 @@ theorem gen_naturality (h : BackendHom φ) (x y z : α) :
     h.map_dec, and_self]
 end
 
+/-! ### MassAction-free trees and whole build programs -/
+
+mutual
+/-- no `MassAction` instance anywhere in the tree -/
+def noMA {α : Type} : Val α → Bool
+  | .num _ => true
+  | .str _ => true
+  | .node k _ args _ => k != .massAction && noMAList args
+def noMAList {α : Type} : List (Val α) → Bool
+  | [] => true
+  | a :: as => noMA a && noMAList as
+end
+
+theorem noMA_isMA {v : Val ℝ} (h : noMA v = true) : v.isMassAction = false := by
+  cases v with
+  | num _ => rfl
+  | str _ => rfl
+  | node k na args uks =>
+    cases k <;> simp_all [noMA, Val.isMassAction]
+
+theorem conv_noMA {v v' : Val ℝ} (h : conv v = .ok v') (hv : noMA v = true) : noMA v' = true := by
+  cases v with
+  | num x =>
+    simp only [conv] at h
+    split at h
+    · cases h; simp [constNode, noMA, noMAList]
+    · cases h
+  | str s => cases h; simp [symbolNode, noMA, noMAList]
+  | node k na args uks => cases h; exact hv
+
+theorem node2_noMA (k : Kind) (hk : k ≠ .massAction) (p q : Val ℝ) (hp : noMA p = true) (hq : noMA q = true) :
+    noMA (.node k false [p, q] none) = true := by
+  simp [noMA, noMAList, hp, hq, hk]
+
+theorem exprAdd_noMA {self other e : Val ℝ} (h : exprAdd self other = .ok e) (hs : noMA self = true)
+    (ho : noMA other = true) : noMA e = true := by
+  unfold exprAdd at h
+  cases hc : conv other with
+  | error err => rw [hc] at h; cases h
+  | ok o =>
+    rw [hc] at h
+    simp only [ok_bind] at h
+    split at h
+    · cases h; exact hs
+    · cases h; exact node2_noMA .add (by decide) _ _ hs (conv_noMA hc ho)
+
+theorem exprNeg_noMA {self e : Val ℝ} (h : exprNeg self = .ok e) (hs : noMA self = true) : noMA e = true := by
+  unfold exprNeg at h
+  split at h
+  · rename_i na args uks
+    cases args with
+    | nil => cases h
+    | cons a rest =>
+      cases h
+      simp only [noMA, noMAList, Bool.and_eq_true] at hs
+      exact hs.2.1
+  · cases h
+    simp [noMA, noMAList, hs]
+
+theorem exprSub_noMA {self other e : Val ℝ} (h : exprSub self other = .ok e) (hs : noMA self = true)
+    (ho : noMA other = true) : noMA e = true := by
+  unfold exprSub at h
+  have key : ∀ short : Bool,
+      (do if short then return self
+          return .node .sub false [self, ← conv other] none : Except Err (Val ℝ)) = .ok e → noMA e = true := by
+    intro short h
+    cases short with
+    | true => simp only [if_true, pure_eq_ok, Except.ok.injEq] at h; subst h; exact hs
+    | false =>
+      simp only [Bool.false_eq_true, if_false] at h
+      cases hc : conv other with
+      | error err => rw [hc] at h; cases h
+      | ok o =>
+        rw [hc] at h
+        simp only [ok_bind, pure_eq_ok, Except.ok.injEq] at h
+        subst h
+        exact node2_noMA .sub (by decide) _ _ hs (conv_noMA hc ho)
+  cases other with
+  | num x => simp only [pure_eq_ok, ok_bind] at h; exact key _ h
+  | str s => simp only [pure_eq_ok, ok_bind] at h; exact key _ h
+  | node k na args uks =>
+    cases k
+    case massAction => simp [noMA] at ho
+    all_goals (simp only [pure_eq_ok, ok_bind] at h; exact key false h)
+
+theorem exprMul_noMA {self other e : Val ℝ} (h : exprMul self other = .ok e) (hs : noMA self = true)
+    (ho : noMA other = true) : noMA e = true := by
+  unfold exprMul at h
+  simp only [noMA_isMA hs, noMA_isMA ho, Bool.false_eq_true, if_false] at h
+  split at h
+  · cases h; exact hs
+  · cases hc : conv other with
+    | error err => rw [hc] at h; cases h
+    | ok o =>
+      rw [hc] at h
+      simp only [ok_bind, pure_eq_ok, Except.ok.injEq] at h
+      subst h
+      exact node2_noMA .mul (by decide) _ _ hs (conv_noMA hc ho)
+
+theorem exprRDiv_noMA {self other e : Val ℝ} (h : exprRDiv self other = .ok e) (hs : noMA self = true)
+    (ho : noMA other = true) : noMA e = true := by
+  unfold exprRDiv at h
+  simp only [noMA_isMA hs, Bool.false_eq_true, if_false] at h
+  cases hc : conv other with
+  | error err => rw [hc] at h; cases h
+  | ok o =>
+    rw [hc] at h
+    simp only [ok_bind, pure_eq_ok, Except.ok.injEq] at h
+    subst h
+    exact node2_noMA .div (by decide) _ _ (conv_noMA hc ho) hs
+
+theorem exprDiv_noMA {self other e : Val ℝ} (h : exprDiv self other = .ok e) (hs : noMA self = true)
+    (ho : noMA other = true) : noMA e = true := by
+  unfold exprDiv at h
+  split at h
+  · cases h; exact hs
+  · simp only [noMA_isMA hs, noMA_isMA ho, Bool.false_eq_true, if_false] at h
+    cases hc : conv other with
+    | error err => rw [hc] at h; cases h
+    | ok o =>
+      rw [hc] at h
+      simp only [ok_bind, pure_eq_ok, Except.ok.injEq] at h
+      subst h
+      exact node2_noMA .div (by decide) _ _ hs (conv_noMA hc ho)
+
+theorem pyPow_noMA {l r e : Val ℝ} (h : pyPow l r = .ok e) (hl : noMA l = true) (hr : noMA r = true) :
+    noMA e = true := by
+  unfold pyPow at h
+  split at h
+  · cases hc : conv r with
+    | error err => rw [hc] at h; cases h
+    | ok o =>
+      rw [hc] at h
+      simp only [ok_bind, pure_eq_ok, Except.ok.injEq] at h
+      subst h
+      exact node2_noMA .pow (by decide) _ _ hl (conv_noMA hc hr)
+  · split at h
+    · cases hc : conv l with
+      | error err => rw [hc] at h; cases h
+      | ok o =>
+        rw [hc] at h
+        simp only [ok_bind, pure_eq_ok, Except.ok.injEq] at h
+        subst h
+        exact node2_noMA .pow (by decide) _ _ (conv_noMA hc hl) hr
+    · cases h
+
+
+/-! ### whole build programs -/
+
+/-- a program over the operator algebra: bare numbers and strings, `Constant`, `Symbol`, and the six operators -/
+inductive Prog
+  | raw (x : ℝ) | str (s : String) | const (x : ℝ) | sym (s : String)
+  | neg (p : Prog) | add (p q : Prog) | sub (p q : Prog) | mul (p q : Prog) | div (p q : Prog) | pow (p q : Prog)
+
+/-- the tree the overloaded operators build -/
+noncomputable def Prog.build : Prog → Except Err (Val ℝ)
+  | .raw x => .ok (.num x)
+  | .str s => .ok (.str s)
+  | .const x => .ok (constNode x)
+  | .sym s => .ok (symbolNode s)
+  | .neg p => do pyNeg (← p.build)
+  | .add p q => do pyAdd (← p.build) (← q.build)
+  | .sub p q => do pySub (← p.build) (← q.build)
+  | .mul p q => do pyMul (← p.build) (← q.build)
+  | .div p q => do pyDivOp (← p.build) (← q.build)
+  | .pow p q => do pyPow (← p.build) (← q.build)
+
+/-- the arithmetic meaning -/
+noncomputable def Prog.meaning (ctx : Ctx ℝ) : Prog → Except Err ℝ
+  | .raw x => .ok x
+  | .str s => ctx.get s
+  | .const x => .ok x
+  | .sym s => ctx.get s
+  | .neg p => do pure (-(← p.meaning ctx))
+  | .add p q => do pure ((← p.meaning ctx) + (← q.meaning ctx))
+  | .sub p q => do pure ((← p.meaning ctx) - (← q.meaning ctx))
+  | .mul p q => do pure ((← p.meaning ctx) * (← q.meaning ctx))
+  | .div p q => do pyDiv (← p.meaning ctx) (← q.meaning ctx)
+  | .pow p q => do PyNum.pow (← p.meaning ctx) (← q.meaning ctx)
+
+/-- no subtraction whose subtrahend is the bare empty string (`x - ""` returns `x`) -/
+noncomputable def Prog.okSub : Prog → Prop
+  | .neg p => p.okSub
+  | .add p q | .mul p q | .div p q | .pow p q => p.okSub ∧ q.okSub
+  | .sub p q => p.okSub ∧ q.okSub ∧ q.build ≠ .ok (.str "")
+  | _ => True
+
+theorem bind_ok_inv {γ δ : Type} {x : Except Err γ} {f : γ → Except Err δ} {d : δ} (h : (x >>= f) = .ok d) :
+    ∃ c, x = .ok c ∧ f c = .ok d := by
+  cases x with
+  | error e => cases h
+  | ok c => exact ⟨c, rfl, h⟩
+
+theorem prog_spec (ctx : Ctx ℝ) : ∀ (p : Prog) (e : Val ℝ) (v : ℝ), p.build = .ok e → p.meaning ctx = .ok v → p.okSub →
+    eval ctx e = .ok v ∧ plainOps e = true ∧ noMA e = true := by
+  intro p
+  induction p with
+  | raw x =>
+    intro e v hb hm _
+    cases hb; cases hm
+    exact ⟨rfl, rfl, rfl⟩
+  | str s =>
+    intro e v hb hm _
+    cases hb
+    exact ⟨hm, rfl, rfl⟩
+  | const x =>
+    intro e v hb hm _
+    cases hb; cases hm
+    refine ⟨by simp [constNode, eval, call], by simp [constNode, plainOps, plainOpsList], by simp [constNode, noMA, noMAList]⟩
+  | sym s =>
+    intro e v hb hm _
+    cases hb
+    refine ⟨?_, by simp [symbolNode, plainOps, plainOpsList], by simp [symbolNode, noMA, noMAList]⟩
+    have hm' : ctx.get s = .ok v := hm
+    simpa [symbolNode, eval, call] using hm'
+  | neg p ih =>
+    intro e v hb hm hs
+    obtain ⟨e1, hb1, hop⟩ := bind_ok_inv hb
+    obtain ⟨v1, hm1, hv⟩ := bind_ok_inv hm
+    cases hv
+    obtain ⟨he1, hp1, hn1⟩ := ih e1 v1 hb1 hm1 hs
+    unfold pyNeg at hop
+    split at hop
+    · obtain ⟨h1, h2⟩ := exprNeg_hom ctx e1 e v1 hop hp1 he1
+      exact ⟨h1, h2, exprNeg_noMA hop hn1⟩
+    · cases hop
+  | add p q ihp ihq =>
+    intro e v hb hm hs
+    obtain ⟨e1, hb1, hb'⟩ := bind_ok_inv hb
+    obtain ⟨e2, hb2, hop⟩ := bind_ok_inv hb'
+    obtain ⟨v1, hm1, hm'⟩ := bind_ok_inv hm
+    obtain ⟨v2, hm2, hv⟩ := bind_ok_inv hm'
+    cases hv
+    obtain ⟨he1, hp1, hn1⟩ := ihp e1 v1 hb1 hm1 hs.1
+    obtain ⟨he2, hp2, hn2⟩ := ihq e2 v2 hb2 hm2 hs.2
+    unfold pyAdd at hop
+    split at hop
+    · obtain ⟨h1, h2⟩ := exprAdd_hom ctx e1 e2 e v1 v2 hop hp1 hp2 he1 he2
+      exact ⟨h1, h2, exprAdd_noMA hop hn1 hn2⟩
+    · split at hop
+      · obtain ⟨h1, h2⟩ := exprAdd_hom ctx e2 e1 e v2 v1 hop hp2 hp1 he2 he1
+        rw [add_comm] at h1
+        exact ⟨h1, h2, exprAdd_noMA hop hn2 hn1⟩
+      · cases hop
+  | sub p q ihp ihq =>
+    intro e v hb hm hs
+    obtain ⟨e1, hb1, hb'⟩ := bind_ok_inv hb
+    obtain ⟨e2, hb2, hop⟩ := bind_ok_inv hb'
+    obtain ⟨v1, hm1, hm'⟩ := bind_ok_inv hm
+    obtain ⟨v2, hm2, hv⟩ := bind_ok_inv hm'
+    cases hv
+    obtain ⟨he1, hp1, hn1⟩ := ihp e1 v1 hb1 hm1 hs.1
+    obtain ⟨he2, hp2, hn2⟩ := ihq e2 v2 hb2 hm2 hs.2.1
+    have hne : e2 ≠ .str "" := fun h => hs.2.2 (by rw [hb2, h])
+    unfold pySub at hop
+    split at hop
+    · obtain ⟨h1, h2⟩ := exprSub_hom ctx e1 e2 e v1 v2 hop hne hp1 hp2 he1 he2
+      exact ⟨h1, h2, exprSub_noMA hop hn1 hn2⟩
+    · split at hop
+      · obtain ⟨n, hn, hop'⟩ := bind_ok_inv hop
+        obtain ⟨hnv, hnp⟩ := exprNeg_hom ctx e2 n v2 hn hp2 he2
+        obtain ⟨h1, h2⟩ := exprAdd_hom ctx n e1 e (-v2) v1 hop' hnp hp1 hnv he1
+        rw [show -v2 + v1 = v1 - v2 by ring] at h1
+        exact ⟨h1, h2, exprAdd_noMA hop' (exprNeg_noMA hn hn2) hn1⟩
+      · cases hop
+  | mul p q ihp ihq =>
+    intro e v hb hm hs
+    obtain ⟨e1, hb1, hb'⟩ := bind_ok_inv hb
+    obtain ⟨e2, hb2, hop⟩ := bind_ok_inv hb'
+    obtain ⟨v1, hm1, hm'⟩ := bind_ok_inv hm
+    obtain ⟨v2, hm2, hv⟩ := bind_ok_inv hm'
+    cases hv
+    obtain ⟨he1, hp1, hn1⟩ := ihp e1 v1 hb1 hm1 hs.1
+    obtain ⟨he2, hp2, hn2⟩ := ihq e2 v2 hb2 hm2 hs.2
+    unfold pyMul at hop
+    split at hop
+    · obtain ⟨h1, h2⟩ := exprMul_hom ctx e1 e2 e v1 v2 hop (noMA_isMA hn1) (noMA_isMA hn2) hp1 hp2 he1 he2
+      exact ⟨h1, h2, exprMul_noMA hop hn1 hn2⟩
+    · split at hop
+      · obtain ⟨h1, h2⟩ := exprMul_hom ctx e2 e1 e v2 v1 hop (noMA_isMA hn2) (noMA_isMA hn1) hp2 hp1 he2 he1
+        rw [mul_comm] at h1
+        exact ⟨h1, h2, exprMul_noMA hop hn2 hn1⟩
+      · cases hop
+  | div p q ihp ihq =>
+    intro e v hb hm hs
+    obtain ⟨e1, hb1, hb'⟩ := bind_ok_inv hb
+    obtain ⟨e2, hb2, hop⟩ := bind_ok_inv hb'
+    obtain ⟨v1, hm1, hm'⟩ := bind_ok_inv hm
+    obtain ⟨v2, hm2, hv⟩ := bind_ok_inv hm'
+    obtain ⟨he1, hp1, hn1⟩ := ihp e1 v1 hb1 hm1 hs.1
+    obtain ⟨he2, hp2, hn2⟩ := ihq e2 v2 hb2 hm2 hs.2
+    unfold pyDivOp at hop
+    split at hop
+    · obtain ⟨h1, h2⟩ := exprDiv_hom ctx e1 e2 e v1 v2 hop (noMA_isMA hn1) (noMA_isMA hn2) hp1 hp2 he1 he2
+      exact ⟨h1.trans hv, h2, exprDiv_noMA hop hn1 hn2⟩
+    · split at hop
+      · obtain ⟨h1, h2⟩ := exprRDiv_hom ctx e2 e1 e v2 v1 hop (noMA_isMA hn2) hp2 hp1 he2 he1
+        exact ⟨h1.trans hv, h2, exprRDiv_noMA hop hn2 hn1⟩
+      · cases hop
+  | pow p q ihp ihq =>
+    intro e v hb hm hs
+    obtain ⟨e1, hb1, hb'⟩ := bind_ok_inv hb
+    obtain ⟨e2, hb2, hop⟩ := bind_ok_inv hb'
+    obtain ⟨v1, hm1, hm'⟩ := bind_ok_inv hm
+    obtain ⟨v2, hm2, hv⟩ := bind_ok_inv hm'
+    obtain ⟨he1, hp1, hn1⟩ := ihp e1 v1 hb1 hm1 hs.1
+    obtain ⟨he2, hp2, hn2⟩ := ihq e2 v2 hb2 hm2 hs.2
+    obtain ⟨h1, h2⟩ := pyPow_hom ctx e1 e2 e v1 v2 hop hp1 hp2 he1 he2
+    exact ⟨h1.trans hv, h2, pyPow_noMA hop hn1 hn2⟩
+
+/-! ### backend naturality of the evaluator -/
+
+set_option linter.unusedSectionVars false
+
+section nat
+variable {α β : Type} [Add α] [Sub α] [Mul α] [Div α] [Neg α] [NatCast α] [PyNum α]
+  [Add β] [Sub β] [Mul β] [Div β] [Neg β] [NatCast β] [PyNum β]
+
+/-- a map between two number structures ("backends") that commutes with everything an expression can do with a number -/
+structure PyHom (φ : α → β) : Prop where
+  map_add : ∀ x y, φ (x + y) = φ x + φ y
+  map_sub : ∀ x y, φ (x - y) = φ x - φ y
+  map_mul : ∀ x y, φ (x * y) = φ x * φ y
+  map_div : ∀ x y, φ (x / y) = φ x / φ y
+  map_neg : ∀ x, φ (-x) = -φ x
+  map_natCast : ∀ n : Nat, φ (n : α) = (n : β)
+  map_beq : ∀ x y, PyNum.beq (φ x) (φ y) = PyNum.beq x y
+  map_le : ∀ x y, PyNum.le (φ x) (φ y) = PyNum.le x y
+  map_pow : ∀ x y, PyNum.pow (φ x) (φ y) = (PyNum.pow x y).map φ
+  map_exp : ∀ x, PyNum.exp (φ x) = (PyNum.exp x).map φ
+  map_log10 : ∀ x, PyNum.log10 (φ x) = (PyNum.log10 x).map φ
+  map_sin : ∀ x, PyNum.sin (φ x) = (PyNum.sin x).map φ
+
+mutual
+/-- the same tree over the other number type -/
+def Val.map (φ : α → β) : Val α → Val β
+  | .num x => .num (φ x)
+  | .str s => .str s
+  | .node k na args uks => .node k na (Val.mapList φ args) uks
+def Val.mapList (φ : α → β) : List (Val α) → List (Val β)
+  | [] => []
+  | a :: as => Val.map φ a :: Val.mapList φ as
+end
+
+/-- the same variables over the other number type -/
+def Ctx.map (φ : α → β) (ctx : Ctx α) : Ctx β := ⟨fun k => (ctx.vars k).map φ, ctx.rxn⟩
+
+@[simp] theorem map_ok (φ : α → β) (x : α) : Except.map φ (Except.ok x : Except Err α) = Except.ok (φ x) := rfl
+@[simp] theorem map_error (φ : α → β) (e : Err) : Except.map φ (Except.error e : Except Err α) = Except.error e := rfl
+
+variable {φ : α → β}
+
+theorem get_nat (ctx : Ctx α) (k : String) : (ctx.map φ).get k = (ctx.get k).map φ := by
+  simp only [Ctx.get, Ctx.map]
+  cases hv : ctx.vars k <;> simp
+
+theorem ofInt_nat (h : PyHom φ) (i : Int) : φ (Num.ofInt i) = Num.ofInt i := by
+  unfold Num.ofInt
+  split
+  · rw [h.map_neg, h.map_natCast]
+  · rw [h.map_natCast]
+
+theorem pyDiv_nat (h : PyHom φ) (x y : α) : pyDiv (φ x) (φ y) = (pyDiv x y).map φ := by
+  unfold pyDiv
+  rw [← h.map_natCast 0, h.map_beq]
+  split
+  · rfl
+  · rw [map_ok, h.map_div]
+
+theorem mapM_nat {γ : Type} (f : γ → Except Err α) (f' : γ → Except Err β) (hf : ∀ x, f' x = (f x).map φ) :
+    ∀ l : List γ, l.mapM f' = (l.mapM f).map (List.map φ)
+  | [] => rfl
+  | a :: l => by
+      rw [List.mapM_cons, List.mapM_cons, hf a, mapM_nat f f' hf l]
+      cases f a with
+      | error e => rfl
+      | ok x => cases l.mapM f <;> rfl
+
+theorem pyIndex_map {γ δ : Type} (g : γ → δ) (l : List γ) (i : Int) : pyIndex (l.map g) i = (pyIndex l i).map g := by
+  unfold pyIndex
+  simp only [List.length_map, List.getElem?_map]
+  split
+  · split <;> rfl
+  · rfl
+
+theorem defaults_nat (h : PyHom φ) (k : Kind) :
+    (k.defaults : Option (List β)) = (k.defaults : Option (List α)).map (List.map φ) := by
+  cases k <;> simp [Kind.defaults, h.map_natCast]
+
+theorem argAt_nat (h : PyHom φ) (ctx : Ctx α) (k : Kind) (na : Bool) (n : Nat) (vals : List (Except Err α))
+    (uks : Option (List String)) (i : Nat) :
+    argAt (ctx.map φ) k na n (vals.map (Except.map φ)) uks i = (argAt ctx k na n vals uks i).map φ := by
+  unfold argAt
+  have hstored : (if na then Except.error Err.typeError else
+        match (vals.map (Except.map φ))[i]? with | some r => r | none => Except.error Err.indexError)
+      = Except.map φ (if na then Except.error Err.typeError else
+        match vals[i]? with | some r => r | none => Except.error Err.indexError) := by
+    cases na
+    · simp only [Bool.false_eq_true, if_false, List.getElem?_map]
+      cases vals[i]? <;> rfl
+    · rfl
+  cases uks with
+  | none => exact hstored
+  | some uk =>
+    simp only
+    cases uk[i]? with
+    | some key =>
+      simp only [Ctx.map]
+      cases hv : ctx.vars key with
+      | some v => simp
+      | none =>
+        simp only [Option.map_none]
+        cases na
+        · exact hstored
+        · rfl
+    | none =>
+      simp only
+      split
+      · rw [defaults_nat h k]
+        cases (k.defaults : Option (List α)) with
+        | none => rfl
+        | some d =>
+          cases k.nargs with
+          | none => rfl
+          | some m =>
+            simp only [Option.map_some, List.length_map, pyIndex_map]
+            cases pyIndex d (↑i - m + ↑d.length) <;> rfl
+      · exact hstored
+
+theorem allArgs_nat (h : PyHom φ) (ctx : Ctx α) (k : Kind) (na : Bool) (n : Nat) (vals : List (Except Err α))
+    (uks : Option (List String)) :
+    allArgs (ctx.map φ) k na n (vals.map (Except.map φ)) uks = (allArgs ctx k na n vals uks).map (List.map φ) := by
+  unfold allArgs
+  have hm := fun m => mapM_nat (φ := φ) (argAt ctx k na n vals uks) (argAt (ctx.map φ) k na n (vals.map (Except.map φ)) uks)
+    (argAt_nat h ctx k na n vals uks) (List.range m)
+  cases k.nargs with
+  | none =>
+    cases na
+    · simp only [Bool.false_eq_true, if_false, pure_eq_ok, ok_bind]; exact hm n
+    · rfl
+  | some m =>
+    simp only
+    split
+    · cases na
+      · simp only [Bool.false_eq_true, if_false, pure_eq_ok, ok_bind]; exact hm n
+      · rfl
+    · simp only [pure_eq_ok, ok_bind]; exact hm _
+
+
+theorem bind_nat {γ δ : Type} (ψ : γ → δ) (x : Except Err α) (f : α → Except Err γ) (f' : β → Except Err δ)
+    (hf : ∀ a, f' (φ a) = (f a).map ψ) : (x.map φ >>= f') = (x >>= f).map ψ := by
+  cases x with
+  | error e => rfl
+  | ok a => exact hf a
+
+theorem mapList_length (l : List (Val α)) : (Val.mapList φ l).length = l.length := by
+  induction l with
+  | nil => rfl
+  | cons a l ih => simp [Val.mapList, ih]
+
+theorem polyLoop_nat (h : PyHom φ) (recip : Bool) (x0 : α) : ∀ (cs : List α) (res : Option α) (cur : α),
+    polyLoop recip (φ x0) (cs.map φ) (res.map φ) (φ cur) = (polyLoop recip x0 cs res cur).map (Option.map φ)
+  | [], res, cur => rfl
+  | c :: cs, res, cur => by
+      have key : ∀ r0 : α, polyLoop recip (φ x0) (List.map φ (c :: cs)) (Option.map φ res) (φ cur)
+          = (if recip = true then do
+              let cur' ← pyDiv (φ cur) (φ x0)
+              polyLoop recip (φ x0) (cs.map φ) (some (φ r0)) cur'
+            else polyLoop recip (φ x0) (cs.map φ) (some (φ r0)) (φ cur * φ x0)) →
+          (polyLoop recip x0 (c :: cs) res cur
+          = (if recip = true then do
+              let cur' ← pyDiv cur x0
+              polyLoop recip x0 cs (some r0) cur'
+            else polyLoop recip x0 cs (some r0) (cur * x0))) →
+          polyLoop recip (φ x0) (List.map φ (c :: cs)) (Option.map φ res) (φ cur)
+            = (polyLoop recip x0 (c :: cs) res cur).map (Option.map φ) := by
+        intro r0 h1 h2
+        rw [h1, h2]
+        cases recip
+        · simp only [Bool.false_eq_true, if_false, ← h.map_mul]
+          exact polyLoop_nat h false x0 cs (some r0) _
+        · simp only [if_true, pyDiv_nat h]
+          refine bind_nat _ _ _ _ (fun cur' => ?_)
+          exact polyLoop_nat h true x0 cs (some r0) _
+      cases res with
+      | none =>
+        refine key (c * cur) ?_ ?_
+        · simp only [List.map_cons, Option.map_none, polyLoop, h.map_mul]
+          cases recip <;> rfl
+        · simp only [polyLoop]
+          cases recip <;> rfl
+      | some r =>
+        refine key (r + c * cur) ?_ ?_
+        · simp only [List.map_cons, Option.map_some, polyLoop, h.map_mul, h.map_add]
+          cases recip <;> rfl
+        · simp only [polyLoop]
+          cases recip <;> rfl
+
+theorem polyBody_nat (h : PyHom φ) (recip shift : Bool) (args : List α) (x : α) :
+    polyBody recip shift (args.map φ) (φ x) = (polyBody recip shift args x).map φ := by
+  unfold polyBody
+  cases shift
+  · simp only [Bool.false_eq_true, if_false, pure_eq_ok, ok_bind]
+    have := polyLoop_nat h recip x args none ((1 : Nat) : α)
+    rw [h.map_natCast] at this
+    simp only [Option.map_none] at this
+    rw [this]
+    cases polyLoop recip x args none ((1 : Nat) : α) with
+    | error e => rfl
+    | ok r => cases r <;> rfl
+  · cases args with
+    | nil => rfl
+    | cons a0 rest =>
+      simp only [if_true, List.map_cons, pure_eq_ok, ok_bind, ← h.map_sub]
+      have := polyLoop_nat h recip (x - a0) rest none ((1 : Nat) : α)
+      rw [h.map_natCast] at this
+      simp only [Option.map_none] at this
+      rw [this]
+      cases polyLoop recip (x - a0) rest none ((1 : Nat) : α) with
+      | error e => rfl
+      | ok r => cases r <;> rfl
+
+theorem pwSelect_nat (h : PyHom φ) (x : α) : ∀ b : List α, pwSelect (φ x) (b.map φ) = (pwSelect x b).map φ
+  | [] => by simp [pwSelect]
+  | [_] => by simp [pwSelect]
+  | [_, _] => by simp [pwSelect]
+  | lo :: ex :: up :: rest => by
+      simp only [List.map_cons]
+      rw [pwSelect, pwSelect, h.map_le, h.map_le]
+      split
+      · rfl
+      · have := pwSelect_nat h x (up :: rest)
+        simpa using this
+termination_by b => b.length
+
+theorem pwBody_nat (h : PyHom φ) (b : List α) (x : α) : pwBody (b.map φ) (φ x) = (pwBody b x).map φ := by
+  unfold pwBody
+  simp only [List.length_map]
+  split
+  · rfl
+  · split
+    · rfl
+    · exact pwSelect_nat h x b
+
+theorem concProd_nat (h : PyHom φ) (ctx : Ctx α) : ∀ (reac : List (String × Int)) (acc : α),
+    concProd (ctx.map φ) reac (φ acc) = (concProd ctx reac acc).map φ
+  | [], acc => rfl
+  | (k, v) :: rest, acc => by
+      simp only [concProd, get_nat]
+      refine bind_nat _ _ _ _ (fun c => ?_)
+      rw [← ofInt_nat h, h.map_pow]
+      refine bind_nat _ _ _ _ (fun p => ?_)
+      rw [← h.map_mul]
+      exact concProd_nat h ctx rest _
+
+theorem radSum_nat (h : PyHom φ) (ctx : Ctx α) : ∀ (ks : List String) (gs : List α) (acc : Option α),
+    radSum (ctx.map φ) ks (gs.map φ) (acc.map φ) = (radSum ctx ks gs acc).map (Option.map φ)
+  | [], _, _ => by simp [radSum]
+  | _ :: _, [], _ => by simp [radSum]
+  | k :: ks, g :: gs, acc => by
+      cases acc with
+      | none =>
+        simp only [List.map_cons, Option.map_none, radSum, get_nat]
+        refine bind_nat _ _ _ _ (fun d => ?_)
+        rw [← h.map_mul]
+        exact radSum_nat h ctx ks gs (some (d * g))
+      | some a =>
+        simp only [List.map_cons, Option.map_some, radSum, get_nat]
+        refine bind_nat _ _ _ _ (fun d => ?_)
+        rw [← h.map_mul, ← h.map_add]
+        exact radSum_nat h ctx ks gs (some (a + d * g))
+
+theorem rxnOf_nat (ctx : Ctx α) (b : Bool) : rxnOf (ctx.map φ) b = rxnOf ctx b := rfl
+
+
+/-- list-valued version of `bind_nat` followed by the case analysis on the shape of the argument list -/
+theorem bindL_nat {δ : Type} (x : Except Err (List α)) (f : List α → Except Err α) (f' : List β → Except Err β)
+    (hf : ∀ l, f' (l.map φ) = (f l).map φ) : (x.map (List.map φ) >>= f') = (x >>= f).map φ := by
+  cases x with
+  | error e => rfl
+  | ok a => exact hf a
+
+syntax "shape " ident : tactic
+macro_rules
+  | `(tactic| shape $l) =>
+    `(tactic| (rcases $l:ident with _ | ⟨a1, _ | ⟨a2, _ | ⟨a3, _ | ⟨a4, _ | ⟨a5, rest⟩⟩⟩⟩⟩ <;>
+        simp only [List.map_cons, List.map_nil] <;> try rfl))
+
+theorem call_nat (h : PyHom φ) (ctx : Ctx α) (k : Kind) (na : Bool) (args : List (Val α)) (vals : List (Except Err α))
+    (uks : Option (List String)) :
+    call (ctx.map φ) k na (Val.mapList φ args) (vals.map (Except.map φ)) uks
+      = (call ctx k na args vals uks).map φ := by
+  unfold call
+  simp only [mapList_length, allArgs_nat h]
+  cases k with
+  | const =>
+    cases na
+    · cases args with
+      | nil => rfl
+      | cons a rest => cases a <;> rfl
+    · rfl
+  | symbol =>
+    cases uks with
+    | none => rfl
+    | some u =>
+      rcases u with _ | ⟨uk, _ | ⟨_, _⟩⟩
+      · rfl
+      · exact get_nat ctx uk
+      · rfl
+  | neg =>
+    refine bindL_nat (δ := α) _ _ _ (fun l => ?_)
+    shape l
+    simp only [pure_eq_ok, map_ok, h.map_neg]
+  | add =>
+    refine bindL_nat (δ := α) _ _ _ (fun l => ?_)
+    shape l
+    simp only [pure_eq_ok, map_ok, h.map_add]
+  | sub =>
+    refine bindL_nat (δ := α) _ _ _ (fun l => ?_)
+    shape l
+    simp only [pure_eq_ok, map_ok, h.map_sub]
+  | mul =>
+    refine bindL_nat (δ := α) _ _ _ (fun l => ?_)
+    shape l
+    simp only [pure_eq_ok, map_ok, h.map_mul]
+  | div =>
+    refine bindL_nat (δ := α) _ _ _ (fun l => ?_)
+    shape l
+    exact pyDiv_nat h _ _
+  | pow =>
+    refine bindL_nat (δ := α) _ _ _ (fun l => ?_)
+    shape l
+    exact h.map_pow _ _
+  | log10 =>
+    refine bindL_nat (δ := α) _ _ _ (fun l => ?_)
+    shape l
+    exact h.map_log10 _
+  | exp =>
+    refine bindL_nat (δ := α) _ _ _ (fun l => ?_)
+    shape l
+    exact h.map_exp _
+  | poly p recip shift =>
+    refine bindL_nat (δ := α) _ _ _ (fun l => ?_)
+    rw [get_nat]
+    refine bind_nat _ _ _ _ (fun x => ?_)
+    exact polyBody_nat h recip shift l x
+  | piecewise p =>
+    refine bindL_nat (δ := α) _ _ _ (fun l => ?_)
+    rw [get_nat]
+    refine bind_nat _ _ _ _ (fun x => ?_)
+    exact pwBody_nat h l x
+  | massAction =>
+    refine bindL_nat (δ := α) _ _ _ (fun l => ?_)
+    shape l
+    rw [rxnOf_nat]
+    cases rxnOf ctx false with
+    | error e => rfl
+    | ok r =>
+      simp only [ok_bind]
+      rw [← h.map_natCast 1, concProd_nat h]
+      refine bind_nat _ _ _ _ (fun p => ?_)
+      simp only [pure_eq_ok, map_ok, h.map_mul]
+  | arrhenius =>
+    refine bindL_nat (δ := α) _ _ _ (fun l => ?_)
+    shape l
+    rw [get_nat]
+    refine bind_nat _ _ _ _ (fun t => ?_)
+    rw [← h.map_neg, pyDiv_nat h]
+    refine bind_nat _ _ _ _ (fun q => ?_)
+    rw [h.map_exp]
+    refine bind_nat _ _ _ _ (fun x => ?_)
+    simp only [pure_eq_ok, map_ok, h.map_mul]
+  | eyring =>
+    refine bindL_nat (δ := α) _ _ _ (fun l => ?_)
+    shape l
+    rw [get_nat]
+    refine bind_nat _ _ _ _ (fun t => ?_)
+    rw [← h.map_neg, pyDiv_nat h]
+    refine bind_nat _ _ _ _ (fun q => ?_)
+    rw [h.map_exp]
+    refine bind_nat _ _ _ _ (fun x => ?_)
+    rw [rxnOf_nat]
+    cases rxnOf ctx true with
+    | error e => rfl
+    | ok r =>
+      simp only [ok_bind]
+      rw [← ofInt_nat h, h.map_pow]
+      refine bind_nat _ _ _ _ (fun p => ?_)
+      simp only [pure_eq_ok, map_ok, h.map_mul]
+  | eyringHS =>
+    refine bindL_nat (δ := α) _ _ _ (fun l => ?_)
+    shape l
+    rw [get_nat]
+    refine bind_nat _ _ _ _ (fun t => ?_)
+    rw [get_nat]
+    refine bind_nat _ _ _ _ (fun r => ?_)
+    rw [get_nat]
+    refine bind_nat _ _ _ _ (fun kB => ?_)
+    rw [get_nat]
+    refine bind_nat _ _ _ _ (fun hh => ?_)
+    rw [← h.map_mul, ← h.map_mul, ← h.map_sub, ← h.map_neg, pyDiv_nat h]
+    refine bind_nat _ _ _ _ (fun q => ?_)
+    rw [pyDiv_nat h]
+    refine bind_nat _ _ _ _ (fun f => ?_)
+    rw [h.map_exp]
+    refine bind_nat _ _ _ _ (fun x => ?_)
+    rw [rxnOf_nat]
+    cases rxnOf ctx false with
+    | error e => rfl
+    | ok rx =>
+      simp only [ok_bind]
+      rw [← ofInt_nat h, h.map_pow]
+      refine bind_nat _ _ _ _ (fun p => ?_)
+      simp only [pure_eq_ok, map_ok, h.map_mul]
+  | radiolytic names =>
+    dsimp only
+    rw [get_nat]
+    refine bind_nat _ _ _ _ (fun d => ?_)
+    refine bindL_nat (δ := α) _ _ _ (fun l => ?_)
+    have := radSum_nat h ctx (names.map (fun n => "doserate" ++ radSuffix n)) l none
+    simp only [Option.map_none] at this
+    rw [this]
+    cases radSum ctx (names.map (fun n => "doserate" ++ radSuffix n)) l none with
+    | error e => rfl
+    | ok r =>
+      cases r with
+      | none => rfl
+      | some sm => simp only [map_ok, Option.map_some, ok_bind, pure_eq_ok, h.map_mul]
+  | rampedTemp =>
+    refine bindL_nat (δ := α) _ _ _ (fun l => ?_)
+    shape l
+    rw [get_nat]
+    refine bind_nat _ _ _ _ (fun t => ?_)
+    simp only [pure_eq_ok, map_ok, h.map_mul, h.map_add]
+  | sinTemp =>
+    refine bindL_nat (δ := α) _ _ _ (fun l => ?_)
+    shape l
+    rw [get_nat]
+    refine bind_nat _ _ _ _ (fun t => ?_)
+    rw [← h.map_mul, ← h.map_add, h.map_sin]
+    refine bind_nat _ _ _ _ (fun x => ?_)
+    simp only [pure_eq_ok, map_ok, h.map_mul, h.map_add]
+  | massActionEq =>
+    refine bindL_nat (δ := α) _ _ _ (fun l => ?_)
+    shape l
+  | gibbsEqConst =>
+    refine bindL_nat (δ := α) _ _ _ (fun l => ?_)
+    shape l
+    rw [get_nat]
+    refine bind_nat _ _ _ _ (fun t => ?_)
+    rw [pyDiv_nat h]
+    refine bind_nat _ _ _ _ (fun q => ?_)
+    rw [← h.map_sub, h.map_exp]
+
+
+theorem childCtx_map (k : Kind) (ctx : Ctx α) : childCtx k (ctx.map φ) = (childCtx k ctx).map φ := by
+  cases k <;> rfl
+
+theorem noneArg_nat (k : Kind) (r : Except Err α) : noneArg k (r.map φ) = (noneArg k r).map φ := by
+  cases r with
+  | ok x => rfl
+  | error e =>
+    cases e <;> simp only [map_error, noneArg]
+    split <;> rfl
+
+mutual
+theorem eval_nat (h : PyHom φ) : ∀ (ctx : Ctx α) (v : Val α),
+    eval (ctx.map φ) (Val.map φ v) = (eval ctx v).map φ
+  | ctx, .num x => rfl
+  | ctx, .str s => get_nat ctx s
+  | ctx, .node k na args uks => by
+      simp only [Val.map, eval]
+      rw [childCtx_map, evalList_nat h (childCtx k ctx) args]
+      have : List.map (noneArg k) (List.map (Except.map φ) (evalList (childCtx k ctx) args))
+          = List.map (Except.map φ) (List.map (noneArg k) (evalList (childCtx k ctx) args)) := by
+        simp only [List.map_map]
+        apply List.map_congr_left
+        intro r _
+        exact noneArg_nat k r
+      rw [this]
+      exact call_nat h ctx k na args _ uks
+theorem evalList_nat (h : PyHom φ) : ∀ (ctx : Ctx α) (l : List (Val α)),
+    evalList (ctx.map φ) (Val.mapList φ l) = (evalList ctx l).map (Except.map φ)
+  | ctx, [] => rfl
+  | ctx, a :: l => by
+      simp only [Val.mapList, evalList, List.map_cons]
+      rw [eval_nat h ctx a, evalList_nat h ctx l]
+end
+
+end nat
 end ChemModel.PyExpr
